@@ -813,6 +813,48 @@ fn dispatch<C: CI>(op: Op, a: &[&[u8]]) -> R<Vec<Vec<u8>>> {
             <C as BlsElGamal>::verify_proof(point(arg(a, 0)?)?, gen, point(arg(a, 2)?)?, point(arg(a, 3)?)?, scalar(arg(a, 4)?)?, scalar(arg(a, 5)?)?, scalar(arg(a, 6)?)?).map_err(e)?;
             Ok(vec![])
         }
+        Op::VerifyUnchecked => {
+            // what a caller can do with the public constructors (`Signature::Basic(point)`, `PublicKey(point)`, ...):
+            // hand the verifiers points that are on the curve but were never subgroup-checked
+            fn unchecked<G: GroupEncoding>(b: &[u8]) -> R<G> {
+                let mut repr = G::Repr::default();
+                if repr.as_ref().len() != b.len() {
+                    return Err("length".into());
+                }
+                repr.as_mut().copy_from_slice(b);
+                Option::<G>::from(G::from_bytes_unchecked(&repr)).ok_or_else(|| "not on curve".to_string())
+            }
+            let kind = *arg(a, 0)?.first().ok_or("kind")?;
+            let sb = arg(a, 1)?;
+            let pkp: <C as Pairing>::PublicKey = unchecked(arg(a, 2)?)?;
+            let msg = arg(a, 3)?;
+            match kind {
+                0 | 1 => {
+                    let (tag, body) = sb.split_first().ok_or("sig")?;
+                    let sp: <C as Pairing>::Signature = unchecked(body)?;
+                    if kind == 0 {
+                        let sig = match tag {
+                            0 => Signature::<C>::Basic(sp),
+                            1 => Signature::<C>::MessageAugmentation(sp),
+                            _ => Signature::<C>::ProofOfPossession(sp),
+                        };
+                        sig.verify(&PublicKey::<C>(pkp), msg).map_err(e)?;
+                    } else {
+                        let sig = match tag {
+                            0 => MultiSignature::<C>::Basic(sp),
+                            1 => MultiSignature::<C>::MessageAugmentation(sp),
+                            _ => MultiSignature::<C>::ProofOfPossession(sp),
+                        };
+                        sig.verify(MultiPublicKey::<C>(pkp), msg).map_err(e)?;
+                    }
+                }
+                _ => {
+                    let sp: <C as Pairing>::Signature = unchecked(sb)?;
+                    ProofOfPossession::<C>(sp).verify(PublicKey::<C>(pkp)).map_err(e)?;
+                }
+            }
+            Ok(vec![])
+        }
         Op::MsgGenerator => Ok(vec![pt(&<C as BlsElGamal>::message_generator())]),
         Op::Dsts => Ok(vec![
             <C as BlsSignatureBasic>::DST.to_vec(),
